@@ -320,6 +320,8 @@ func c19Schedule(x *engine.Exec, bodies []c19Body, ids []int, start, maxPts int)
 		}
 	}
 	s := engine.NewSched(x, f, 0)
+	// executions on never-freed fresh types are explored with one preemption only (memory)
+	s.NoLater = fresh != nil
 	got := make([]string, len(ids))
 	var fns []func()
 	for i, id := range ids {
